@@ -1,4 +1,5 @@
 import Revm.Proofs.EvmLinkFees
+import Revm.Proofs.Evm
 import Revm.Props.C09
 import Revm.Props.C02
 /-! LINK, the facts the component theorems need, extracted from a completed `Evm.transact` run: what an accepting
@@ -7,6 +8,33 @@ set_option linter.unusedSimpArgs false
 namespace Revm.Proofs.EvmLink
 open Revm Revm.Model Revm.Model.Evm
 open Revm.Model.GasCalc (enabled)
+
+/-- for non-vacuity examples: a verdict that is `Ok(None)` -/
+def isNoneOk {α} : R (Option α) → Bool
+  | .ok none => true
+  | _ => false
+
+theorem eq_none_of_isNoneOk {α} {x : R (Option α)} (h : isNoneOk x = true) : x = .ok none := by
+  cases x with
+  | error e => exact Bool.noConfusion h
+  | ok o => cases o with
+    | none => rfl
+    | some a => exact Bool.noConfusion h
+
+/-- for non-vacuity examples: a run that completes with an executed transaction -/
+def isExecuted : R (Outcome × World) → Bool
+  | .ok (.executed _, _) => true
+  | _ => false
+
+theorem exists_of_isExecuted {x : R (Outcome × World)} (h : isExecuted x = true) :
+    ∃ r w', x = .ok (.executed r, w') := by
+  cases x with
+  | error e => exact Bool.noConfusion h
+  | ok p =>
+    obtain ⟨o, w'⟩ := p
+    cases o with
+    | rejected => exact Bool.noConfusion h
+    | executed r => exact ⟨r, w', rfl⟩
 
 /-- before Prague the floor returned by `calculate_initial_tx_gas` is 0 -/
 theorem initialGas_floor_zero (e : Evm.Env) (spec ig fg : Nat) (h : initialGas e spec = some (ig, fg))
@@ -93,6 +121,34 @@ def FirstFrameResult (fuel : Nat) (w : World) (e : Evm.Env) (spec : Nat) (ig fg 
     Evm.prepare journalOps e (GasCalc.canon spec) ig w1 =
       .ok (first, w2, isCreate, U64ops.wmul k (Evm.PER_EMPTY_ACCOUNT_COST - Evm.PER_AUTH_BASE_COST)) ∧
     Evm.runFirst journalOps (e.toCfg (GasCalc.canon spec)) fuel first w2 = .ok (res, w3)
+
+/-- the first frame's result as the input of the C09 pipeline (its own meter had the limit `gas_limit − initial_gas`) -/
+abbrev txFrame (e : Evm.Env) (ig : Nat) (res : Interp.ChildResult) : TxGas.FrameRes :=
+  frameRes res (U64ops.wsub e.tx.gasLimit ig)
+
+/-- THE FRAME MACHINE'S GUARANTEE, as a hypothesis: the first frame gives back at most the gas it was given
+(`gas_limit − initial_gas`) -/
+def FrameAccounting (fuel : Nat) (w : World) (e : Evm.Env) (spec : Nat) : Prop :=
+  ∀ ig fg k res w3, FirstFrameResult fuel w e spec ig fg k res w3 → res.gasRemaining ≤ e.tx.gasLimit - ig
+
+/-- a completed executed transaction: its first frame's result and what `finish` reports of it -/
+theorem transact_first_frame (fuel : Nat) (w w' : World) (e : Evm.Env) (spec : Nat) (r : TxResult)
+    (h : Evm.transact fuel w e spec = .ok (.executed r, w')) :
+    ∃ ig fg k res w3 isCreate, FirstFrameResult fuel w e spec ig fg k res w3 ∧
+      k ≤ authLen e ∧
+      Evm.finish e (GasCalc.canon spec) fg (U64ops.wmul k (Evm.PER_EMPTY_ACCOUNT_COST - Evm.PER_AUTH_BASE_COST))
+        isCreate res w3 = .ok (r, w') ∧
+      classOf res.result = some r.cls ∧ r.reason = res.result ∧
+      r.gasUsed = TxGas.gasUsed (TxGas.finalGas (gasEnv e (GasCalc.canon spec)) fg k (txFrame e ig res)) ∧
+      (r.cls = .success →
+        r.gasRefunded = TxGas.gasRefunded (TxGas.finalGas (gasEnv e (GasCalc.canon spec)) fg k (txFrame e ig res))) ∧
+      (r.cls ≠ .success → r.gasRefunded = 0) := by
+  obtain ⟨w1, ig, fg, first, w2, isCreate, k, res, w3, hp, hpr, hk, hrf, hfin⟩ :=
+    transact_executed_stages fuel w w' e spec r h
+  obtain ⟨hc, hu, hs, hn⟩ := finish_gas e _ fg _ isCreate res w3 w' r hfin
+  obtain ⟨_, hreason, _⟩ := Proofs.Evm.finish_result e _ fg _ isCreate res w3 w' r hfin
+  rw [finalGas_eq_txgas e _ fg k res (U64ops.wsub e.tx.gasLimit ig)] at hu hs
+  exact ⟨ig, fg, k, res, w3, isCreate, ⟨w1, first, w2, isCreate, hp, hpr, hrf⟩, hk, hfin, hc, hreason, hu, hs, hn⟩
 
 /-- the first frame's result is an admissible input of the C09 pipeline, given the frame machine's guarantee -/
 theorem admissible_of_firstFrame {fuel : Nat} {w : World} {e : Evm.Env} {spec ig fg k : Nat}
